@@ -95,13 +95,29 @@ func (fs *FS) setFile(path string, file FileRecord) error {
 	txn, err := fs.store.Transaction(TransactionOptions{
 		Mode: TransactionReadWrite,
 	})
-	if err == nil {
-		err = fs.setFileTxn(txn, path, file, contents)
+	if err != nil {
+		return err
 	}
-	if err == nil {
-		_, err = txn.Commit(context.Background())
+	err = fs.setFileTxn(txn, path, file, contents)
+	if err != nil {
+		_ = txn.Abort()
+		return err
 	}
-	return err
+	results, err := txn.Commit(context.Background())
+	if err != nil {
+		return err
+	}
+	return firstResultErr(results)
+}
+
+// firstResultErr returns the first error reported by an operation of a committed transaction, if any.
+func firstResultErr(results []OpResult) error {
+	for _, result := range results {
+		if result.Err != nil {
+			return result.Err
+		}
+	}
+	return nil
 }
 
 func (fs *FS) setFileTxn(txn Transaction, path string, file FileRecord, contents blob.Blob) error {
